@@ -114,6 +114,13 @@ def run(tier, rep, ev):
     c = mk(["LZMA2"], "encoded", "path", i)
     c.update(sizes=[])
     cases.append(c)
+    # multi-volume targets whose volume size is not a multiple of the AES block: short reads leave a residue in the decryptor
+    for ch in (["Copy", "AES"], ["LZMA2", "AES"], ["ZStd", "AES"], ["X86", "BZip2", "AES"], ["Deflate"]):
+        for blk, vol in ((4096, 10007), (1000, 10007), (None, 70001), (4096, 70001)):
+            i += 1
+            c = mk(ch, "encoded", "multivolume", i)
+            c.update(block=blk, volume=vol, limit=None, sizes=[30011, 16, 5000] if blk else [300000, 17])
+            cases.append(c)
 
     def tmo(c):
         return 180 if not c.get("block") else 90
